@@ -203,7 +203,7 @@ PROPS["C19"] = {
     "floor": {"quick": 3000, "thorough": 20000},
     "require_counters": {"quick": {"A_calls": 3000, "A_calls_that_changed_the_tree": 40, "B_histories_with_overlapping_writers": 300, "B_successful_writes": 10000, "B_conflicts": 5000, "B_bystander_operations": 20000},
                          "thorough": {"B_histories_with_overlapping_writers": 10000}},
-    "rule": "A: 14 operations {list, tree, open, create file/dir, write, rename from/to, delete, search, format, diagnostics, symbols, workspace symbols} x ~57 path strings "
+    "rule": "A: 19 operations {list, tree, open, create file/dir, write, rename from/to, delete, search, format, diagnostics, symbols, workspace symbols, rename_symbol without / with an unsaved buffer, definition, references, hover} x ~57 path strings "
             "(.., absolute, ./, //, backslashes, hidden, through a directory symlink / file symlink / symlink cycle, NUL, unicode look-alikes, trailing dots/spaces, 4 kB long, "
             "percent-encoded, random compositions) x {editor, viewer, expired, bogus token, editor with write disabled}; enumerated completely in every tier. distinct = "
             "(op, path, session, write flag); non-trivial = the call returned (Ok or refusal) and both snapshots were compared. B: 2-8 editor sessions x 5-50 optimistic writes "
